@@ -39,6 +39,9 @@ type t5Exception struct {
 	caller string // funcName substring
 	callee string // shortObj substring
 	reason string
+	// writerIsBytesBuffer: applies (with caller == "") when the call's io.Writer
+	// argument is statically a *bytes.Buffer
+	writerIsBytesBuffer bool
 }
 
 func pkgOfFunc(f *types.Func) string {
@@ -73,7 +76,17 @@ func runErrorDrop(p *Program, r *RuleResult, scope []*ssa.Function, inSet func(f
 				}
 				exempted := false
 				for _, e := range exceptions {
-					if strings.Contains(funcName(fn), e.caller) && strings.Contains(shortObj(cal), e.callee) {
+					// caller "" with a writer condition: the exception is about WHAT is written
+					// to, not about which function contains the call
+					if e.caller == "" && strings.Contains(shortObj(cal), e.callee) && e.writerIsBytesBuffer {
+						if writesToBytesBuffer(c) {
+							r.exempt(key, p.Rel(c.Pos()), what, e.reason)
+							exempted = true
+							break
+						}
+						continue
+					}
+					if e.caller != "" && strings.Contains(funcName(fn), e.caller) && strings.Contains(shortObj(cal), e.callee) {
 						r.exempt(key, p.Rel(c.Pos()), what, e.reason)
 						exempted = true
 						break
@@ -85,6 +98,22 @@ func runErrorDrop(p *Program, r *RuleResult, scope []*ssa.Function, inSet func(f
 			}
 		}
 	}
+}
+
+// writesToBytesBuffer: the io.Writer argument of the call is a *bytes.Buffer.
+func writesToBytesBuffer(c *ssa.Call) bool {
+	for _, a := range c.Call.Args {
+		mi, ok := a.(*ssa.MakeInterface)
+		if !ok {
+			continue
+		}
+		if pt, ok := mi.X.Type().(*types.Pointer); ok {
+			if nt, ok := pt.Elem().(*types.Named); ok && nt.Obj().Pkg() != nil && nt.Obj().Pkg().Path() == "bytes" && nt.Obj().Name() == "Buffer" {
+				return true
+			}
+		}
+	}
+	return false
 }
 
 func pkgSet(rel ...string) map[string]bool {
@@ -109,7 +138,7 @@ func init() {
 				return err
 			}
 			runErrorDrop(p, r, p.ProdFuncs(), func(f *types.Func) bool { return pk[pkgOfFunc(f)] }, []t5Exception{
-				{caller: "(*pkg/ingest.Inserter).insertBlock", callee: "(*pkg/objects.BlockIndex).WriteTo",
+				{caller: "", callee: "(*pkg/objects.BlockIndex).WriteTo", writerIsBytesBuffer: true,
 					reason: "writes into a *bytes.Buffer, whose Write never fails; WriteTo's only error source is w.Write"},
 			})
 			return nil
